@@ -6,7 +6,7 @@ import lcase, lgrams
 
 
 def lreplay(case, rec=None, extra=None):
-    d = {"id": case["id"], "lox": lcase.render_lox(case)}
+    d = {"id": case["id"], "lox": lcase.render_lox(case), "case_json": {k: v for k, v in case.items() if k != "gen"}}
     if rec is not None:
         d["input_runes"] = rec["in"]
         d["input_text"] = show_input(rec["chars"])
@@ -67,6 +67,7 @@ def long_inputs(case, rng, n, alphabet):
 
 
 def lex_explore(rep, sc, cases, rng, cap, fullcap, nlong, ng="off", alpha_cap=5, trace_cap=15000):
+    cases = replay_filter(cases)
     lox, mod, acc, runner = prepare(sc, cases)
     for c in cases:
         if not c["gen"]["ok"]:
